@@ -1,4 +1,419 @@
-(** * EndToEndProofs *)
-From Coq Require Import List ZArith String Bool.
+(** * EndToEndProofs — C01: a proxy call is transparent (for all registered functions, names,
+    JSON arguments that bind, versions and class-translation settings) *)
+From Coq Require Import List ZArith String Bool Lia.
 From JR Require Import Val PyOps Payload Client Dispatch EndToEnd.
 Import ListNotations.
+Open Scope string_scope.
+
+(** ** Values: conversion and the wire on JSON data *)
+
+Lemma dumpable_ind' (P : val -> Prop) :
+  P VNone -> (forall b, P (VBool b)) -> (forall z, P (VInt z)) -> (forall f, P (VFlt f)) -> (forall s, P (VStr s)) ->
+  (forall l, Forall P l -> P (VList l)) -> (forall l, Forall P l -> P (VTuple l)) ->
+  (forall m, Forall (fun kv => P (snd kv)) m -> P (VDict m)) ->
+  forall v, dumpable v = true -> P v.
+Proof.
+  intros HN HB HI HF HS HL HT HD. induction v using val_ind'; intros Hd; cbn in Hd; try discriminate Hd; auto.
+  - apply HL. rewrite forallb_forall in Hd. rewrite Forall_forall in *. intros x Hx. apply H; auto.
+  - apply HT. rewrite forallb_forall in Hd. rewrite Forall_forall in *. intros x Hx. apply H; auto.
+  - apply HD. rewrite forallb_forall in Hd. rewrite Forall_forall in *. intros kv Hkv.
+    specialize (H kv Hkv). specialize (Hd kv Hkv). destruct (fst kv); try discriminate Hd. apply H; exact Hd.
+Qed.
+
+Lemma norm_idem : forall v, norm (norm v) = norm v.
+Proof.
+  induction v using val_ind'; cbn [norm]; auto.
+  1-4: f_equal; rewrite map_map; apply map_ext_in; intros x Hx; rewrite Forall_forall in H; auto.
+  f_equal. rewrite map_map. apply map_ext_in. intros kv Hkv. rewrite Forall_forall in H. cbn [fst snd]. f_equal. apply H; auto.
+Qed.
+
+Lemma dumpable_norm : forall v, dumpable v = true -> dumpable (norm v) = true.
+Proof.
+  induction v using val_ind'; cbn [norm dumpable]; auto; intros Hd; try discriminate Hd.
+  1-2: rewrite forallb_forall in *; intros x Hx; apply in_map_iff in Hx; destruct Hx as (y & <- & Hy);
+       rewrite Forall_forall in H; auto.
+  rewrite forallb_forall in *. intros kv Hkv. apply in_map_iff in Hkv. destruct Hkv as (y & <- & Hy).
+  cbn [fst snd]. rewrite Forall_forall in H. specialize (Hd y Hy). destruct (fst y); try discriminate Hd. apply H; auto.
+Qed.
+
+Lemma is_json_norm : forall v, dumpable v = true -> is_json (norm v) = true.
+Proof.
+  induction v using val_ind'; cbn [norm dumpable is_json]; auto; intros Hd; try discriminate Hd.
+  1-2: rewrite forallb_forall in *; intros x Hx; apply in_map_iff in Hx; destruct Hx as (y & <- & Hy);
+       rewrite Forall_forall in H; auto.
+  rewrite forallb_forall in *. intros kv Hkv. apply in_map_iff in Hkv. destruct Hkv as (y & <- & Hy).
+  cbn [fst snd]. rewrite Forall_forall in H. specialize (Hd y Hy). destruct (fst y); try discriminate Hd. apply H; auto.
+Qed.
+
+Lemma is_json_dumpable : forall v, is_json v = true -> dumpable v = true.
+Proof.
+  induction v using val_ind'; cbn [dumpable is_json]; auto; intros Hd; try discriminate Hd.
+  - rewrite forallb_forall in *. intros x Hx. rewrite Forall_forall in H. auto.
+  - rewrite forallb_forall in *. intros kv Hkv. rewrite Forall_forall in H. specialize (Hd kv Hkv).
+    destruct (fst kv); try discriminate Hd. apply H; auto.
+Qed.
+
+Lemma norm_json : forall v, is_json v = true -> norm v = v.
+Proof.
+  induction v using val_ind'; cbn [norm is_json]; auto; intros Hd; try discriminate Hd.
+  - f_equal. rewrite forallb_forall in Hd. rewrite Forall_forall in H. rewrite <- (map_id l) at 2. apply map_ext_in. auto.
+  - f_equal. rewrite forallb_forall in Hd. rewrite Forall_forall in H. rewrite <- (map_id m) at 2. apply map_ext_in.
+    intros kv Hkv. specialize (Hd kv Hkv). destruct kv as [k x]. cbn [fst snd] in *. destruct k; try discriminate Hd.
+    f_equal. apply (H _ Hkv); auto.
+Qed.
+
+Lemma convert_dumpable : forall v, dumpable v = true -> convert v = Ok (norm v).
+Proof.
+  induction v using val_ind'; cbn [dumpable]; intros Hd; try discriminate Hd; try reflexivity.
+  - cbn [convert norm].
+    assert (E : (fix go (l : list val) : res (list val) :=
+                   match l with [] => Ok [] | x :: r => do x' <- convert x; do r' <- go r; Ok (x' :: r') end) l
+                = Ok (map norm l)).
+    { induction l as [|x l IH]; [reflexivity|]. cbn [forallb] in Hd. apply andb_true_iff in Hd. destruct Hd as (Hx & Hl).
+      inversion H; subst. rewrite (H2 Hx). cbn [bind]. rewrite (IH H3 Hl). reflexivity. }
+    rewrite E. reflexivity.
+  - cbn [convert norm].
+    assert (E : (fix go (l : list val) : res (list val) :=
+                   match l with [] => Ok [] | x :: r => do x' <- convert x; do r' <- go r; Ok (x' :: r') end) l
+                = Ok (map norm l)).
+    { induction l as [|x l IH]; [reflexivity|]. cbn [forallb] in Hd. apply andb_true_iff in Hd. destruct Hd as (Hx & Hl).
+      inversion H; subst. rewrite (H2 Hx). cbn [bind]. rewrite (IH H3 Hl). reflexivity. }
+    rewrite E. reflexivity.
+  - cbn [convert norm].
+    assert (E : (fix go (m : list (val * val)) : res (list (val * val)) :=
+                   match m with [] => Ok [] | kv :: r => do x' <- convert (snd kv); do r' <- go r; Ok ((fst kv, x') :: r') end) m
+                = Ok (map (fun kv => (fst kv, norm (snd kv))) m)).
+    { induction m as [|kv m IH]; [reflexivity|]. cbn [forallb] in Hd. apply andb_true_iff in Hd. destruct Hd as (Hx & Hl).
+      inversion H; subst. destruct H2 as (_ & Hs). destruct (fst kv) eqn:Ek; try discriminate Hx.
+      rewrite (Hs Hx). cbn [bind]. rewrite (IH H3 Hl). cbn [map]. rewrite Ek. reflexivity. }
+    rewrite E. reflexivity.
+Qed.
+
+Lemma norm_list_json : forall l, forallb is_json l = true -> map norm l = l.
+Proof.
+  induction l as [|x l IH]; [reflexivity|]. cbn [forallb map]. intros H. apply andb_true_iff in H. destruct H as (Hx & Hl).
+  rewrite (norm_json _ Hx), (IH Hl). reflexivity.
+Qed.
+
+Lemma dumpable_list_json : forall l, forallb is_json l = true -> forallb dumpable l = true.
+Proof.
+  intros l H. rewrite forallb_forall in *. intros x Hx. apply is_json_dumpable. auto.
+Qed.
+
+Lemma dumpable_dict_cons : forall k v m, dumpable (VDict ((VStr k, v) :: m)) = dumpable v && dumpable (VDict m).
+Proof. reflexivity. Qed.
+Lemma dumpable_dict_nil : dumpable (VDict []) = true.
+Proof. reflexivity. Qed.
+Lemma norm_dict_cons : forall k v m, norm (VDict ((k, v) :: m)) =
+  match norm (VDict m) with VDict m' => VDict ((k, norm v) :: m') | x => x end.
+Proof. reflexivity. Qed.
+
+(** ** The single call *)
+
+Definition f10 : val := VFlt (F 1 1).
+Definition f20 : val := VFlt (F 2 1).
+Definition ver_ok (v : val) : Prop := v = f10 \/ v = f20.
+Definition carg_ok (v : val) : Prop := v = VNone \/ ver_ok v.
+
+(** JSON arguments: a list of JSON values, or a map from strings to JSON values *)
+Definition args_json (a : call_args) : bool :=
+  match a with Positional l => forallb is_json l | Keyword m => is_json (VDict m) end.
+
+(** what the dispatcher hands to the callable: f( *l ), f( **m ), f() *)
+Definition entered (a : call_args) : val :=
+  match a with
+  | Positional [] | Keyword [] => VList []
+  | Positional l => VList l
+  | Keyword m => VDict m
+  end.
+
+(** the version the request is written in: the proxy's version argument, else its Config's version *)
+Definition req_v2 (c : client) : bool :=
+  match cl_version c with
+  | VNone => match pc_version (cl_cfg c) with VFlt (F 2 1) => true | _ => false end
+  | VFlt (F 2 1) => true
+  | _ => false
+  end.
+
+(** the request object as the server parses it *)
+Definition request_value (v2 : bool) (m : str) (a : call_args) (id : str) : val :=
+  let base := [(VStr "id", VStr id); (VStr "method", VStr m)] in
+  VDict (match a, v2 with
+         | (Positional [] | Keyword []), false => base ++ [(VStr "params", VList [])]
+         | (Positional [] | Keyword []), true => base ++ [(VStr "jsonrpc", VStr "2.0")]
+         | _, false => base ++ [(VStr "params", entered a)]
+         | _, true => base ++ [(VStr "params", entered a); (VStr "jsonrpc", VStr "2.0")]
+         end).
+
+(** the form of the reply: a request without "jsonrpc" is answered in 1.0 form, one with it in the server's *)
+Definition reply_form (v2 : bool) (srvf : form) : form := if v2 then srvf else V1.
+
+Section Single.
+  Variable body : cid -> val -> outcome.
+  Variable sigs : cid -> signature.
+  Variable fresh : nat -> str.
+  Variable dv : val.
+  Hypothesis fresh_nonempty : forall n, fresh n <> "".
+
+  (** from the request dictionary on: the wire, the server, the reply, the client's reading of it.
+      [P0]: the "params" member as the client wrote it; [P]: as the server parses it *)
+  Definition req_dict (v2 with_params : bool) (m : str) (p : val) (id : str) : val :=
+    VDict ([(VStr "id", VStr id); (VStr "method", VStr m)]
+           ++ (if with_params then [(VStr "params", p)] else [])
+           ++ (if v2 then [(VStr "jsonrpc", VStr "2.0")] else [])).
+
+  Lemma core : forall (v2 wp : bool) srvf reg pool sjc c m f n h v (P0 P : val),
+    m <> "" -> lookup m (r_funcs reg) = Some f ->
+    dumpable P0 = true -> norm P0 = P -> is_param_container P = true ->
+    (wp = false -> v2 = true) ->
+    call_binds (sigs f) (if wp then P else VList []) = true ->
+    body f (if wp then P else VList []) = Return v -> dumpable v = true ->
+    match wire (req_dict v2 wp m P0 (fresh n)) with
+    | Ok w =>
+        let '(r, log, h') := run_request body sigs srvf (mkSrv reg pool sjc) None c w h in
+        (match r with Ok resp => proxy_result resp | Raise e => Raise e end, log, h', S n)
+    | Raise e => (Raise e, [], h, S n)
+    end
+    = (Ok (norm v), [EvCall f (if wp then P else VList [])],
+       add_response (add_request h (req_dict v2 wp m P (fresh n)))
+                    (Some (resp_obj (reply_form v2 srvf) (VStr (fresh n)) (norm v))),
+       S n).
+  Proof.
+    intros v2 wp srvf reg pool sjc c m f n h v P0 P Hm Hf HP0 HPn HPc Hwp Hb Hbody Hv.
+    pose proof (dumpable_norm _ Hv) as Hnv. pose proof (norm_idem v) as Hnn. pose proof (convert_dumpable _ Hv) as Hcv'.
+    assert (Hme : String.eqb m "" = false) by (apply String.eqb_neq; exact Hm).
+    assert (Hie : String.eqb (fresh n) "" = false) by (apply String.eqb_neq; apply fresh_nonempty).
+    assert (HPd : dumpable P = true) by (rewrite <- HPn; apply dumpable_norm; exact HP0).
+    remember (norm v) as nv eqn:Env.
+    destruct wp; [|rewrite (Hwp eq_refl)]; [destruct v2|]; destruct srvf; destruct sjc.
+    all: unfold wire, req_dict; cbn [app dumpable forallb fst snd andb]; rewrite ?HP0; cbn [andb norm map fst snd]; rewrite ?HPn.
+    all: unfold run_request, marshaled_dispatch, loads_m, unmarshaled_dispatch.
+    all: cbn in Hb, Hbody.
+    all: repeat (progress (unfold answer_entry, validate_request, single_dispatch, single_dispatch_with, run_target, dispatch, call_func,
+                                  request_form, request_id, is_notification, has_version, proxy_result, check_for_errors, load, jl;
+                           cbn; rewrite ?Hme, ?Hie, ?Hf, ?Hb, ?Hbody, ?Hcv', ?HPc, ?HPd, ?Hnv, ?Hnn, ?Hv, <- ?Env)).
+    all: destruct (pc_jsonclass (cl_cfg c)); cbn; reflexivity.
+  Qed.
+
+  Theorem single_call : forall srvf reg pool sjc c m f a n h v,
+    ver_ok (pc_version (cl_cfg c)) -> carg_ok (cl_version c) ->
+    m <> "" -> lookup m (r_funcs reg) = Some f ->
+    args_json a = true ->
+    call_binds (sigs f) (entered a) = true ->
+    body f (entered a) = Return v -> dumpable v = true ->
+    proxy_call body sigs fresh dv srvf (mkSrv reg pool sjc) None c m a n h
+    = (Ok (norm v), [EvCall f (entered a)],
+       add_response (add_request h (request_value (req_v2 c) m a (fresh n)))
+                    (Some (resp_obj (reply_form (req_v2 c) srvf) (VStr (fresh n)) (norm v))),
+       S n).
+  Proof.
+    intros srvf reg pool sjc [[cv cjc] carg] m f a n h v Hcv Hca Hm Hf Ha Hb Hbody Hv.
+    cbn [cl_cfg cl_version pc_version] in *.
+    unfold ver_ok, carg_ok, ver_ok, f10, f20 in *.
+    destruct a as [[|x l]|[|kv mm]].
+    all: cbn [args_json entered] in *.
+    all: destruct Hcv as [-> | ->]; destruct Hca as [-> | [-> | ->]]; destruct cjc.
+    all: unfold proxy_call, proxy_request, call_params, Payload.dump, dump_plan.
+    all: cbn [truthy pc_version pc_jsonclass cl_cfg cl_version valid_params is_string negb andb orb req_v2 request_value reply_form].
+    all: unfold jc.
+    all: try (rewrite convert_dumpable
+                by first [apply is_json_dumpable; exact Ha | cbn [dumpable]; apply dumpable_list_json; exact Ha | reflexivity]).
+    all: try (assert (Hnd : norm (VDict (kv :: mm)) = VDict (kv :: mm)) by (apply norm_json; exact Ha); rewrite ?Hnd).
+    all: try (cbn [norm]; rewrite ?(norm_list_json _ Ha)).
+    all: cbn -[norm convert dumpable wire run_request].
+    all: pose proof (is_json_dumpable _ (eq_refl : is_json (VList []) = true)) as HdE.
+    (* empty argument lists: "params": [] under 1.0, no member under 2.0 *)
+    all: try match goal with
+         | |- match wire (VDict [_; _; (VStr "params", VList [])]) with _ => _ end = _ =>
+             apply (core false true) with (P0 := VList []) (P := VList []); auto; discriminate
+         | |- match wire (VDict [_; _; (VStr "jsonrpc", _)]) with _ => _ end = _ =>
+             apply (core true false) with (P0 := VList []) (P := VList []); auto
+         end.
+    all: try match goal with
+         | |- match wire (VDict [_; _; (VStr "params", ?pp); _]) with _ => _ end = (_, [EvCall _ ?qq], _, _) =>
+             apply (core true true) with (P0 := pp) (P := qq)
+         | |- match wire (VDict [_; _; (VStr "params", ?pp)]) with _ => _ end = (_, [EvCall _ ?qq], _, _) =>
+             apply (core false true) with (P0 := pp) (P := qq)
+         end; auto; try discriminate; try reflexivity.
+
+    all: try solve [apply is_json_dumpable; exact Ha | cbn [dumpable]; apply dumpable_list_json; exact Ha].
+    all: try solve [apply norm_json; exact Ha | cbn [norm]; f_equal; apply norm_list_json; exact Ha].
+  Qed.
+
+End Single.
+
+(** ** The notification *)
+
+(** the notification object as the server parses it: no "id" member under 2.0, "id": null under 1.0 *)
+Definition notify_value (v2 : bool) (m : str) (a : call_args) : val :=
+  VDict (match a, v2 with
+         | (Positional [] | Keyword []), false => [(VStr "id", VNone); (VStr "method", VStr m); (VStr "params", VList [])]
+         | (Positional [] | Keyword []), true => [(VStr "method", VStr m); (VStr "jsonrpc", VStr "2.0")]
+         | _, false => [(VStr "id", VNone); (VStr "method", VStr m); (VStr "params", entered a)]
+         | _, true => [(VStr "method", VStr m); (VStr "params", entered a); (VStr "jsonrpc", VStr "2.0")]
+         end).
+
+Section Notify.
+  Variable body : cid -> val -> outcome.
+  Variable sigs : cid -> signature.
+  Variable fresh : nat -> str.
+  Variable dv : val.
+
+  Definition notif_dict (v2 wp : bool) (m : str) (p : val) : val :=
+    VDict ((if v2 then [] else [(VStr "id", VNone)]) ++ [(VStr "method", VStr m)]
+           ++ (if wp then [(VStr "params", p)] else [])
+           ++ (if v2 then [(VStr "jsonrpc", VStr "2.0")] else [])).
+
+  (** inline (no notification pool): the callable runs once, whatever it does (returns or raises), and
+      nothing is answered; with a pool: exactly one task is enqueued (its execution is C04 / C09) *)
+  Lemma core_notify : forall (v2 wp : bool) srvf reg pool sjc c m f n h (P0 P : val),
+    m <> "" -> lookup m (r_funcs reg) = Some f ->
+    dumpable P0 = true -> norm P0 = P -> is_param_container P = true ->
+    (wp = false -> v2 = true) ->
+    call_binds (sigs f) (if wp then P else VList []) = true ->
+    match wire (notif_dict v2 wp m P0) with
+    | Ok w =>
+        let '(r, log, h') := run_request body sigs srvf (mkSrv reg pool sjc) None c w h in
+        (match r with Ok resp => (do _ <- check_for_errors resp; Ok VNone) | Raise e => Raise e end, log, h', S n)
+    | Raise e => (Raise e, [], h, S n)
+    end
+    = (Ok VNone,
+       (if pool then [EvEnqueue None m (if wp then P else VList []) (Some (reply_form v2 srvf))]
+        else [EvCall f (if wp then P else VList [])]),
+       add_response (add_request h (notif_dict v2 wp m P)) None,
+       S n).
+  Proof.
+    intros v2 wp srvf reg pool sjc c m f n h P0 P Hm Hf HP0 HPn HPc Hwp Hb.
+    assert (Hme : String.eqb m "" = false) by (apply String.eqb_neq; exact Hm).
+    assert (HPd : dumpable P = true) by (rewrite <- HPn; apply dumpable_norm; exact HP0).
+    destruct wp; [|rewrite (Hwp eq_refl)]; [destruct v2|]; destruct srvf; destruct pool.
+    all: unfold wire, notif_dict; cbn [app dumpable forallb fst snd andb]; rewrite ?HP0; cbn [andb norm map fst snd]; rewrite ?HPn.
+    all: unfold run_request, marshaled_dispatch, loads_m, unmarshaled_dispatch.
+    all: cbn in Hb.
+    all: repeat (progress (unfold answer_entry, validate_request, single_dispatch, single_dispatch_with, run_target, dispatch, call_func,
+                                  request_form, request_id, is_notification, has_version, proxy_result, check_for_errors, load, jl;
+                           cbn; rewrite ?Hme, ?Hf, ?Hb, ?HPc, ?HPd)).
+    all: try reflexivity.
+    all: destruct (body f _) as [v|cls msg|msg|code msg]; try reflexivity.
+    all: destruct (String.eqb cls "TypeError"); cbn; try reflexivity.
+    all: destruct (convert v); reflexivity.
+  Qed.
+End Notify.
+
+Section SingleNotify.
+  Variable body : cid -> val -> outcome.
+  Variable sigs : cid -> signature.
+  Variable fresh : nat -> str.
+  Variable dv : val.
+
+  Theorem single_notify : forall srvf reg pool sjc c m f a n h,
+    ver_ok (pc_version (cl_cfg c)) -> carg_ok (cl_version c) ->
+    m <> "" -> lookup m (r_funcs reg) = Some f ->
+    args_json a = true ->
+    call_binds (sigs f) (entered a) = true ->
+    proxy_notify body sigs fresh dv srvf (mkSrv reg pool sjc) None c m a n h
+    = (Ok VNone,
+       (if pool then [EvEnqueue None m (entered a) (Some (reply_form (req_v2 c) srvf))] else [EvCall f (entered a)]),
+       add_response (add_request h (notify_value (req_v2 c) m a)) None,
+       S n).
+  Proof.
+    intros srvf reg pool sjc [[cv cjc] carg] m f a n h Hcv Hca Hm Hf Ha Hb.
+    cbn [cl_cfg cl_version pc_version] in *.
+    unfold ver_ok, carg_ok, ver_ok, f10, f20 in *.
+    destruct a as [[|x l]|[|kv mm]].
+    all: cbn [args_json entered] in *.
+    all: destruct Hcv as [-> | ->]; destruct Hca as [-> | [-> | ->]]; destruct cjc.
+    all: unfold proxy_notify, proxy_request, call_params, Payload.dump, dump_plan.
+    all: cbn [truthy pc_version pc_jsonclass cl_cfg cl_version valid_params is_string negb andb orb req_v2 notify_value reply_form].
+    all: unfold jc.
+    all: try (rewrite convert_dumpable
+                by first [apply is_json_dumpable; exact Ha | cbn [dumpable]; apply dumpable_list_json; exact Ha | reflexivity]).
+    all: try (assert (Hnd : norm (VDict (kv :: mm)) = VDict (kv :: mm)) by (apply norm_json; exact Ha); rewrite ?Hnd).
+    all: try (cbn [norm]; rewrite ?(norm_list_json _ Ha)).
+    all: cbn -[norm convert dumpable wire run_request].
+    all: pose proof (is_json_dumpable _ (eq_refl : is_json (VList []) = true)) as HdE.
+    all: try match goal with
+         | |- match wire (VDict [_; _; (VStr "params", VList [])]) with _ => _ end = _ =>
+             apply (core_notify body sigs false true) with (P0 := VList []) (P := VList []); auto; discriminate
+         | |- match wire (VDict [_; (VStr "jsonrpc", _)]) with _ => _ end = _ =>
+             apply (core_notify body sigs true false) with (P0 := VList []) (P := VList []); auto
+         end.
+    all: try match goal with
+         | |- match wire (VDict [_; (VStr "params", ?pp); _]) with _ => _ end = (_, (if _ then _ else [EvCall _ ?qq]), _, _) =>
+             apply (core_notify body sigs true true) with (P0 := pp) (P := qq)
+         | |- match wire (VDict [_; _; (VStr "params", ?pp)]) with _ => _ end = (_, (if _ then _ else [EvCall _ ?qq]), _, _) =>
+             apply (core_notify body sigs false true) with (P0 := pp) (P := qq)
+         end; auto; try discriminate; try reflexivity.
+    all: try solve [apply is_json_dumpable; exact Ha | cbn [dumpable]; apply dumpable_list_json; exact Ha].
+    all: try solve [apply norm_json; exact Ha | cbn [norm]; f_equal; apply norm_list_json; exact Ha].
+  Qed.
+End SingleNotify.
+
+(** ** Sequences of calls: the History is exactly the exchanged texts, in order *)
+
+Record call_spec := mkCS { cs_m : str; cs_a : call_args; cs_f : cid; cs_v : val }.
+
+Section Sequence.
+  Variable body : cid -> val -> outcome.
+  Variable sigs : cid -> signature.
+  Variable fresh : nat -> str.
+  Variable dv : val.
+  Hypothesis fresh_nonempty : forall n, fresh n <> "".
+  Variable srvf : form.
+  Variable srv : server.
+  Variable c : client.
+
+  Definition good (s : call_spec) : Prop :=
+    cs_m s <> "" /\ lookup (cs_m s) (r_funcs (sv_reg srv)) = Some (cs_f s) /\ args_json (cs_a s) = true /\
+    call_binds (sigs (cs_f s)) (entered (cs_a s)) = true /\
+    body (cs_f s) (entered (cs_a s)) = Return (cs_v s) /\ dumpable (cs_v s) = true.
+
+  Fixpoint run_calls (cs : list call_spec) (n : nat) (h : history) : list (res val) * list event * history * nat :=
+    match cs with
+    | [] => ([], [], h, n)
+    | s :: r =>
+        let '(x, l, h1, n1) := proxy_call body sigs fresh dv srvf srv None c (cs_m s) (cs_a s) n h in
+        let '(xs, ls, h2, n2) := run_calls r n1 h1 in
+        (x :: xs, (l ++ ls)%list, h2, n2)
+    end.
+
+  Fixpoint expected_history (cs : list call_spec) (n : nat) (h : history) : history :=
+    match cs with
+    | [] => h
+    | s :: r =>
+        expected_history r (S n)
+          (add_response (add_request h (request_value (req_v2 c) (cs_m s) (cs_a s) (fresh n)))
+                        (Some (resp_obj (reply_form (req_v2 c) srvf) (VStr (fresh n)) (norm (cs_v s)))))
+    end.
+
+  Theorem call_sequence : forall cs n h,
+    ver_ok (pc_version (cl_cfg c)) -> carg_ok (cl_version c) ->
+    Forall good cs ->
+    run_calls cs n h
+    = (map (fun s => Ok (norm (cs_v s))) cs,
+       map (fun s => EvCall (cs_f s) (entered (cs_a s))) cs,
+       expected_history cs n h,
+       (n + length cs)%nat).
+  Proof.
+    intros cs n h Hv Ha Hg. revert n h. induction Hg as [|s r (H1 & H2 & H3 & H4 & H5 & H6) Hr IH]; intros n h.
+    - cbn. rewrite Nat.add_0_r. reflexivity.
+    - cbn [run_calls]. destruct srv as [reg pool sjc]. cbn [sv_reg] in *.
+      rewrite (single_call body sigs fresh dv fresh_nonempty srvf reg pool sjc c (cs_m s) (cs_f s) (cs_a s) n h (cs_v s)); auto.
+      rewrite IH. cbn [map app length expected_history]. rewrite Nat.add_succ_r. reflexivity.
+  Qed.
+
+  (** every call adds exactly one request text and one response text *)
+  Corollary history_lengths : forall cs n h,
+    ver_ok (pc_version (cl_cfg c)) -> carg_ok (cl_version c) -> Forall good cs ->
+    let h' := snd (fst (run_calls cs n h)) in
+    length (h_requests h') = (length (h_requests h) + length cs)%nat /\
+    length (h_responses h') = (length (h_responses h) + length cs)%nat.
+  Proof.
+    intros cs n h Hv Ha Hg. cbn zeta. rewrite call_sequence by assumption. cbn [fst snd]. clear Hg.
+    revert n h. induction cs as [|s r IH]; intros n h; cbn [expected_history length].
+    - lia.
+    - destruct (IH (S n) (add_response (add_request h (request_value (req_v2 c) (cs_m s) (cs_a s) (fresh n)))
+                                      (Some (resp_obj (reply_form (req_v2 c) srvf) (VStr (fresh n)) (norm (cs_v s)))))) as (A & B).
+      rewrite A, B. unfold add_response, add_request. cbn [h_requests h_responses]. rewrite !app_length. cbn [length]. lia.
+  Qed.
+End Sequence.
